@@ -15,7 +15,9 @@ def run(ctx):
                 "every block on its own pages, made inaccessible on free and never reused, so a read or write after free faults at once and is "
                 "attributed by address -- and (b) a registry allocator with poison (double / invalid frees recorded exactly); workloads: "
                 "concurrent Put/Delete/Delete2 on shared keys (same-epoch and cross-epoch deletes), iterators with refresh rates {0,1,3} and "
-                "visitors dereferencing every item, snapshot churn, GC and free workers; allocator events and faults are judged by TLC (MemAPI.tla)")
+                "visitors dereferencing every item, snapshot churn, GC and free workers; plus churn runs: Visitor (2-32 shards), refreshing iterators "
+                "and StoreToDisk loop over a pinned snapshot while two writers insert and delete neighbouring keys within the current epoch "
+                "(every pointer a reader keeps across its tokens is exposed to reclamation); allocator events and faults are judged by TLC (MemAPI.tla)")
     nwriters.model_check(ctx, T)
     plan = [("guard", 150, True, False), ("registry", 300, False, False), ("guard-large", 60, True, True)]
     if T:
@@ -39,6 +41,19 @@ def run(ctx):
         os.remove(tr)
         if ctx.violations and not T:
             break
+    # readers that keep pointers across their accessor tokens (visitor pivots, iterator cursors, backup shards)
+    # against same-epoch insert/delete churn on neighbouring keys
+    if not ctx.violations or T:
+        for i, (name, n, secs, guard) in enumerate([("guard", 4, 2, True), ("registry", 2, 2, False)] if not T else [("guard", 40, 3, True), ("registry", 20, 3, False)]):
+            tr, ns, crashes = writers.run_wr(ctx, "c04_churn%d" % i, vlib.seed() * 10 + 7 + i, n, guard=guard, mm=1, nomem=True,
+                                             extra=["-churn", secs, "-backup", os.path.join(ctx.wd, "churnbk")])
+            ctx.extra["child_crashes_churn_%s" % name] = crashes
+            ctx.extra["churn_reader_passes_%s" % name] = sum(1 for l in open(tr) if '"e":"RScan"' in l or '"e":"Restore"' in l)
+            writers.judge_mem(ctx, tr, "%s allocator, %d x %ds of visitors / refreshing iterators / backups of a pinned snapshot against same-epoch churn" % (name, n, secs), ns)
+            ctx.traces += ns
+            os.remove(tr)
+            if ctx.violations and not T:
+                break
     ctx.assumptions += ["use after free is detected by fault (guard pages) or by poison; a read of a freed block that the registry allocator has poisoned but that does not crash is not detected in registry mode",
                         "the harness dereferences every item an iterator or visitor hands out before the iterator moves on",
                         "a crash of the child that is not on freed memory (or an out-of-memory condition) is an infrastructure error, not a verdict"]
